@@ -57,6 +57,7 @@ partial def spOfJson (j : Json) : Except String Sp := do
   | "tupTyping" => pure (.tupTyping (← sub "x") (← sub "y"))
   | "tupSub" => pure (.tupSub (← sub "x") (← sub "y"))
   | "tupCall" => pure (.tupCall (← sub "x") (← sub "y"))
+  | "pipeLit" => pure (.pipeLit (← sub "x") (← valOfJson (← j.getObjVal? "v")) (← (← j.getObjVal? "len").getNat?))
   | s => throw s!"spelling {s}"
 
 def dfltOfJson (j : Json) : Except String DefaultSp := do
@@ -171,7 +172,7 @@ def runVariant (O : Oracles) (j : Json) : Except String Json := do
                 ("meaning", fieldResToJson (fieldMeaning O fs)),
                 ("annLen", Json.num (Lean.JsonNumber.fromNat (annLenField fs))),
                 ("supported", Json.bool (fieldSupportedAt O tm scope future fs)),
-                ("flat", if flatRegion tm fs && stringOk scope future fs then fieldResToJson (.ok (flatMeaning fs))
+                ("flat", if flatRegion tm fs && stringOk scope future fs then fieldResToJson (flatMeaning O fs)
                          else Json.null)]
   pure (Json.mkObj [("cls", classResToJson (elabClass O tm c)),
                     ("fields", Json.arr perField.toArray),
